@@ -158,7 +158,7 @@ def run(tier, seed):
     ks = kernels(wd, tier)
     kernel.run_kernels(R, ks)
     # the pattern grammar over abstract tokens: unbalanced group, dangling / empty repetition, empty alternative, leading quantifier are syntax errors
-    cp.run_parse_property('C17', tier, seed, [(rx_grammar(), [3] if tier == 'quick' else [1, 2, 3, 4])], ['accept', 'messages'], '', [], [], validate_cf=False, wit_every=1, finish=False, R=R, defer=cases, tag='g')
+    cp.run_parse_property('C17', tier, seed, [(rx_grammar(), [2] if tier == 'quick' else [1, 2, 3, 4])], ['accept', 'messages'], '', [], [], validate_cf=False, wit_every=1, finish=False, R=R, defer=cases, tag='g')
     R.outside = ['patterns longer than the stated length', 'a grammar referencing an undeclared symbol is rejected through find_str at construction: the lookup kernel is decided symbolically, whole constructions are not executed in CBMC',
                  'what the accepted patterns mean (C03)']
     R.assumptions = ['reference validity: recursive-descent recogniser written from the README syntax table, tabulated over byte-class strings (19 classes); every byte value is covered through its class',
